@@ -19,6 +19,7 @@ import felupe.tools._newton as _newton_mod
 
 from .kernel import (
     Unexpected,
+    Misbehaviour,
     newton_failure,
     HarnessError,
     origin,
@@ -430,16 +431,21 @@ class Engine:
         kw = self.evaluate_kwargs()
         kw.update(evaluate_kwargs)
         exc = None
+        # the ramp tables are the caller's data: the job reads them
+        tables = [(j, np.asarray(v), adigest(np.asarray(v))) for j, st in enumerate(self.w.steps) for v in getattr(st, "ramp", {}).values() if not np.isscalar(v)]
         try:
             job.evaluate(**kw)
         except BaseException as e:
-            if isinstance(e, (SystemExit, GeneratorExit, Violation, Discard, HarnessError, Unexpected)):
+            if isinstance(e, (SystemExit, GeneratorExit, Violation, Discard, HarnessError, Unexpected, Misbehaviour)):
                 raise
             if origin(e) == "harness":
                 import traceback
 
                 raise HarnessError("".join(traceback.format_exception(e))[-3000:]) from e
             exc = e
+        for j, arr, dig in tables:
+            if adigest(arr) != dig:
+                raise Misbehaviour("caller-data", f"the ramp table of step {j} (an array owned by the caller) was modified while the job ran", site="Step.ramp")
         self.log.ev("job-end", exc=None if exc is None else type(exc).__name__, nsub=len(self.callbacks))
         for m in self.monitors:
             m.on_job_end(self, exc)
